@@ -206,6 +206,32 @@ class C06:
                 else:
                     d = d[:i]
             frames.append(bytes(d))
+        # every short frame of every type byte, valid and truncated, delivered in TWO reads at every cut: a guard that
+        # tests the wrong number of buffered bytes shows only when the tail of a frame arrives in the next segment
+        shorts = [b"+OK\r\n", b"+\r\n", b"-ERR x\r\n", b"-\r\n", b":1\r\n", b":\r\n", b":-\r\n", b"$0\r\n\r\n", b"$-1\r\n", b"$1\r\na\r\n", b"*0\r\n", b"*-1\r\n",
+                  b"*1\r\n:1\r\n", b"_\r\n", b"#t\r\n", b"#f\r\n", b"#\r\n", b",1.5\r\n", b",\r\n", b"(123\r\n", b"!3\r\nerr\r\n", b"=7\r\ntxt:abc\r\n",
+                  b"%1\r\n:1\r\n:2\r\n", b"~1\r\n:1\r\n", b">1\r\n:1\r\n", b"|1\r\n:1\r\n:2\r\n", b"*2\r\n:1\r\n#t\r\n", b"PING\r\n", b"\r\n", b"\r", b"\n"]
+        ping = Client.encode([b"PING"])
+        for f in shorts:
+            for cut in range(1, len(f) + 1):
+                self.rep.evaluations += 1
+                try:
+                    c = self.srv.client(timeout=0.5)
+                    c.send_raw(f[:cut])
+                    time.sleep(0.004)
+                    c.send_raw(f[cut:] + ping)
+                    try:
+                        c.read_reply(timeout=0.1)
+                    except (TimeoutError, Closed, ProtocolError):
+                        pass
+                    c.close()
+                except OSError:
+                    pass
+            self.rep.nontrivial(("split-frame", f[:1], len(f)))
+            why = self.alive()
+            if why:
+                self.failures.append({"why": why, "raw": [hx(f)], "raw_len": len(f), "commands": [["<frame %r delivered in two reads at some cut>" % f]], "name": "split-frame"})
+                self.restart()
         for f in frames:
             self.rep.evaluations += 1
             try:
@@ -260,6 +286,40 @@ class C06:
                 self.rep.nontrivial(("setrange", cur, want.split()[0]))
                 if cls != want:
                     dis.append({"cmd": "SETRANGE g %d <%d bytes> (cur %s)" % (off, vlen, cur), "impl": repr(got), "model": want})
+        # time arguments with every option combination that selects another storage function (set_string_ex, set_string_nx_ex,
+        # expire, pexpire, setex…): the deadline arithmetic `now + duration` must saturate at every one of them
+        BIG = [2 ** 31, 2 ** 53, 2 ** 62, 2 ** 63 - 1, (2 ** 63 - 1) // 1000, (2 ** 63 - 1) // 1000 + 1, 2 ** 63, 2 ** 64 - 1, 2 ** 64]
+        for t in BIG:
+            for unit in ("EX", "PX"):
+                for flag in ((), ("NX",), ("XX",)):
+                    for present in (False, True):
+                        self.rep.evaluations += 1
+                        c.cmd("DEL", "g")
+                        if present:
+                            c.cmd("SET", "g", "old")
+                        got = c.cmd("SET", "g", "v", unit, str(t), *flag)
+                        self.rep.nontrivial(("set-time", unit, flag, present, got[0]))
+            for cmdline in (["SETEX", "g", str(t), "v"], ["PSETEX", "g", str(t), "v"], ["EXPIRE", "g", str(t)], ["PEXPIRE", "g", str(t)], ["GETEX", "g", "EX", str(t)],
+                            ["EXPIREAT", "g", str(t)], ["PEXPIREAT", "g", str(t)], ["BLPOP", "g:none", str(t)], ["BRPOP", "g:none", str(t)]):
+                self.rep.evaluations += 1
+                c.cmd("SET", "g", "v")
+                try:
+                    if cmdline[0] in ("BLPOP", "BRPOP"):
+                        c2 = self.srv.client(timeout=0.3)
+                        try:
+                            c2.cmd(*cmdline, timeout=0.2)
+                        except (TimeoutError, Closed):
+                            pass
+                        c2.close()
+                    else:
+                        c.cmd(*cmdline)
+                except (Closed, OSError, TimeoutError):
+                    pass
+            why = self.alive()
+            if why:
+                self.failures.append({"why": why, "commands": [["SET g v EX|PX %d [NX|XX] / SETEX / PSETEX / EXPIRE / PEXPIRE / BLPOP with time %d" % (t, t)]], "name": "time-grid", "raw": []})
+                self.restart()
+                c = self.srv.client(timeout=5.0)
         for cnt in (-1, -3, -10, -10000001, -2 ** 31, -2 ** 62, -2 ** 63, -2 ** 63 + 1):
             self.rep.evaluations += 1
             got = c.cmd("SRANDMEMBER", "cset", str(cnt))
